@@ -1,1 +1,5 @@
 import Circomspect.Model.Field
+import Circomspect.Spec.Field
+import Circomspect.Model.Strip
+import Circomspect.Spec.Strip
+import Circomspect.Props.C16
